@@ -98,7 +98,7 @@ def _only_at_names(exp, obs, names):
     spans = [(e[2], e[3]) for e in exp if e[0] == "NAME" and e[1] in names]
 
     def keep(t):
-        return not any(s <= t[2] < e or s < t[3] <= e for s, e in spans)
+        return len(t) < 4 or not any(s <= t[2] < e or s < t[3] <= e for s, e in spans)
 
     return [t for t in exp if keep(t)] == [t for t in obs if keep(t)]
 
